@@ -220,37 +220,47 @@ func c07mirror(c *Ctx) {
 	}
 	// fresh copies
 	r.Rule("ALIAS: a ResourceList stored into a deviceResources map by deviceResources.append / updateAllocateSet comes from DeepCopy() (or a fresh arithmetic result), never directly from the input map or the allocation record")
-	for _, x := range []struct{ recv, name string }{{"deviceResources", "append"}, {"nodeDevice", "updateAllocateSet"}, {"deviceResources", "DeepCopy"}} {
-		fn := c.Fn(devPkg, x.recv, x.name)
-		if fn == nil {
-			continue
-		}
-		n := 0
-		for _, b := range fn.Blocks {
-			for _, in := range b.Instrs {
-				mu, ok := in.(*ssa.MapUpdate)
-				if !ok || !strings.Contains(mu.Value.Type().String(), "ResourceList") {
-					continue
-				}
-				n++
-				fresh := false
-				src := an.Path(mu.Value)
-				if call, _ := an.ResultOfCall(mu.Value); call != nil {
-					switch an.ShortCallee(&call.Call) {
-					case "DeepCopy", "Add", "Subtract", "SubtractWithNonNegativeResult":
-						fresh = true
-					}
-				}
-				// re-storing the element that was just read from the same map (in-place update) is not an alias
-				if lk := lookupOf(mu.Value); lk != nil && lk.X == mu.Map {
+	for _, x := range []struct{ recv, name string }{{"deviceResources", "append"}, {"nodeDevice", "updateAllocateSet"}, {"deviceResources", "DeepCopy"}, {"nodeDevice", "updateDeviceUsed"}} {
+		aliasStoresFresh(c, x.recv, x.name)
+	}
+}
+
+// aliasStoresFresh: every ResourceList stored into a map by the named deviceshare function is a fresh value (DeepCopy, the
+// result of quota arithmetic, a new map) or the element just read from the same map - never the caller's / the record's own map.
+func aliasStoresFresh(c *Ctx, recv, name string) {
+	r := c.R
+	fn := c.Fn(devPkg, recv, name)
+	if fn == nil {
+		return
+	}
+	n := 0
+	for _, b := range fn.Blocks {
+		for _, in := range b.Instrs {
+			mu, ok := in.(*ssa.MapUpdate)
+			if !ok || !strings.Contains(mu.Value.Type().String(), "ResourceList") {
+				continue
+			}
+			n++
+			fresh := false
+			src := an.Path(mu.Value)
+			if call, _ := an.ResultOfCall(mu.Value); call != nil {
+				switch an.ShortCallee(&call.Call) {
+				case "DeepCopy", "Add", "Subtract", "SubtractWithNonNegativeResult":
 					fresh = true
 				}
-				r.Check(fresh, "ALIAS", sprintf("%s/store#%d", fkey(fn), n), c.InstrPos(mu), "stored value is a fresh copy", "a ResourceList taken from "+src+" is stored without DeepCopy: the ledger and the source record share one map, a later in-place addition corrupts the other")
 			}
+			if _, isNew := an.Origin(mu.Value).(*ssa.MakeMap); isNew {
+				fresh = true
+			}
+			// re-storing the element that was just read from the same map (in-place update) is not an alias
+			if lk := lookupOf(mu.Value); lk != nil && lk.X == mu.Map {
+				fresh = true
+			}
+			r.Check(fresh, "ALIAS", sprintf("%s/store#%d", fkey(fn), n), c.InstrPos(mu), "stored value is a fresh copy", "a ResourceList taken from "+src+" is stored without DeepCopy: the ledger and the source record share one map, a later in-place addition corrupts the other")
 		}
-		if n == 0 {
-			r.Unknown("ALIAS", fkey(fn)+"/stores", c.Pos(fn.Pos()), "no ResourceList store found: unknown idiom")
-		}
+	}
+	if n == 0 {
+		r.Unknown("ALIAS", fkey(fn)+"/stores", c.Pos(fn.Pos()), "no ResourceList store found: unknown idiom")
 	}
 }
 
